@@ -159,7 +159,10 @@ def stress_save(binary, seed):
             s.notify("textDocument/didSave", {"textDocument": {"uri": lsp.file_uri(os.path.join(root, "aBase.god"))}})
             final = 0
         else:
-            open(path, "w").write(big_text(2, pad))
+            # atomically (write aside + rename): a reader must see the old or the new file, never a truncated one
+            with open(path + ".tmp", "w") as f:
+                f.write(big_text(2, pad))
+            os.replace(path + ".tmp", path)
             s.notify("textDocument/didSave", {"textDocument": {"uri": uri}})
             final = 2
         got = [canon(s.wait_response(100 + i, 60)) for i in range(n)]
